@@ -47,7 +47,7 @@ func c03(c *Ctx) {
 	n := c.N(10, 120)
 	for i := 0; i < n; i++ {
 		o := gen.Opts{ObjRefs: true, ClassExprs: true, AttributesCmd: true, NonASCII: i%2 == 0, MaxDepth: 3, BlankLines: true,
-			ShorthandElse: true, StmtAfterBlock: true, EmptyBlocks: true, FailSites: i%3 == 0, MultiLineFrags: i%4 == 0, Trailers: i%2 == 1, TrailingSpace: i%3 == 1}
+			ShorthandElse: true, StmtAfterBlock: true, EmptyBlocks: true, FailSites: i%3 == 0, MultiLineFrags: i%4 == 0, Trailers: i%2 == 1, TrailingSpace: i%3 == 1, UnescBlocks: true, Switch: true}
 		f := gen.GenFile(newRand(c.R.Int63()), o, 2, c.N(8, 14))
 		prepFile(f)
 		switch i % 3 {
